@@ -115,6 +115,35 @@ def replay(module, function, args, slice_=None, exclude=()):
     return info.get('reproduced'), info
 
 
+_TAG_CANDIDATES = ['!Zz', '!Trap', '!Sub', '!Doc', '!Circle', '!Shape',
+                   '!Color', '!Unrel1', 'zz', '!A', '!C']
+
+
+def replay_with_repair(module, function, args, slice_=None, exclude=()):
+    """replay(); if the solver's witness does not reproduce and it contains a
+    free string made of control characters (z3 fills unconstrained
+    positions with U+0000..), try the same case with that string replaced by
+    a few ordinary candidates.  A case that reproduces on the unstubbed real
+    code is a genuine counterexample whichever way it was found; the args
+    that reproduced are the ones reported."""
+    rep, info = replay(module, function, args, slice_, exclude)
+    if rep or rep is None and not isinstance(args, dict):
+        return rep, info, args
+    if not isinstance(args, dict):
+        return rep, info, args
+    junk = [k for k, v in args.items() if isinstance(v, str) and v and
+            any(ord(ch) < 32 or 0xD800 <= ord(ch) <= 0xDFFF for ch in v)]
+    for k in junk:
+        for cand in _TAG_CANDIDATES:
+            a2 = dict(args)
+            a2[k] = cand
+            r2, i2 = replay(module, function, a2, slice_, exclude)
+            if r2:
+                i2['repaired_from'] = {k: args[k]}
+                return r2, i2, a2
+    return rep, info, args
+
+
 def load_known(prop):
     path = os.path.join(VERIF, 'known_findings.json')
     if not os.path.exists(path):
@@ -313,9 +342,10 @@ def run_e1_property(prop, tier, harness_module, log=print):
             harness_errors.append((j, 'refuted without a counterexample: '
                                    + r['message'][:300], None))
         elif r['verdict'] == 'REFUTED':
-            rep, info = replay(j.module, j.function, r['args'], j.slice,
-                               j.exclude)
+            rep, info, used = replay_with_repair(
+                j.module, j.function, r['args'], j.slice, j.exclude)
             if rep:
+                r['args'] = used
                 path = write_replay_file(prop, j, info)
                 violations.append((j, path, info))
             else:
